@@ -2,7 +2,7 @@
 # sweep_refactors.sh: every stored harmless refactoring x every scenario sweep that runs with the checks: none may fail
 cd /repo && git status --short | grep -q . && { echo "/repo not clean"; exit 2; }
 cd /verif
-SW="ceremony:c02-alg ceremony:c04 ceremony:c05 ceremony:c07 ceremony:c08 ceremony:c09 ceremony:c09-enabled ceremony:c11 ceremony:c17 c18-trait:get_info c18-trait:make_credential c18-trait:get_assertion passkey-debug:- hid-interleave:- lock-wrappers:- client-prf:- ctap-map:gaq ctap-map:gar ctap-map:mcq ctap-map:mcr ctap-map:gi ctap-map:hs ctap-map:authdata-sizes"
+SW=${SW:-"ceremony:c02-alg ceremony:c04 ceremony:c05 ceremony:c07 ceremony:c08 ceremony:c09 ceremony:c09-enabled ceremony:c11 ceremony:c17 c18-trait:get_info c18-trait:make_credential c18-trait:get_assertion passkey-debug:- hid-interleave:- lock-wrappers:- client-prf:- ctap-map:gaq ctap-map:gar ctap-map:mcq ctap-map:mcr ctap-map:gi ctap-map:hs ctap-map:authdata-sizes"}
 for f in findings-log/refactors/*/r*.diff; do
   git -C /repo apply /verif/$f 2>/dev/null || { echo "$f: patch does not apply"; continue; }
   (cd replay && CARGO_NET_OFFLINE=true cargo build --offline >/dev/null 2>&1) || { echo "$f: replay does not build"; git -C /repo checkout -- .; continue; }
